@@ -306,6 +306,12 @@ def run_sharded(binary, lines, timeout=1200, shards=None):
     clean, raw = [], []
     for c, r in outs:
         clean.extend(c); raw.extend(r)
+    # a child that died for a reason unrelated to the case (machine load, a binary replaced under
+    # it) must not be taken for an abort of the library: re-run such cases once, alone
+    for i, c in enumerate(clean):
+        if c == "abort" and i < len(lines):
+            c1, r1 = _run_lines(binary, [lines[i]], 300)
+            clean[i], raw[i] = c1[0], r1[0]
     return clean, raw
 
 
